@@ -97,5 +97,424 @@ theorem rma_shift (x : Ctx F) (d : Nat) (p : Int) (input : String)
           rw [Ctx.num_shift x d input j (by simp only at hm; omega)]
         · simp only [hg, Bool.false_eq_true, if_false]
 
+/-- WMA, any period: the `period` candles `i, i-1, …, i-period+1` -/
+theorem wma_shift (x : Ctx F) (d : Nat) (p : Int) (input : String)
+    (hd : (d : Int) + 1 ≤ x.i) (hi : x.i < x.cs.length) (hw : (d : Int) + p ≤ x.i + 1) :
+    Calc.wma (x.shift d) p input = Calc.wma x p input := by
+  unfold Calc.wma
+  have e : x.i - (d : Int) - p = (x.i - p) - d := by omega
+  simp only [Ctx.shift_name, Ctx.shift_i, e, Ctx.prevExists_shift x d _ hd hi,
+    readingPeriod_shift' x d p _ (by omega) hw]
+  cases x.prevExists x.name with
+  | error e => rfl
+  | ok b =>
+    simp only [bind, Except.bind]
+    by_cases hg : (b || x.readingPeriod p input) = true
+    · simp only [hg, if_true]
+      rw [pyRangeDown_sub]
+      congr 1
+      apply mapM_zipIdx_shift
+      intro q hq
+      have hm := (Ana.mem_pyRangeDown _ _ _).1 (List.fst_mem_of_mem_zipIdx hq)
+      obtain ⟨j, py⟩ := q
+      simp only
+      rw [Ctx.num_shift x d input j (by simp only at hm; omega)]
+    · simp only [hg, Bool.false_eq_true, if_false]
+
+/-- VWMA, any period: the `period` candles `i-period+1, …, i` -/
+theorem vwma_shift (x : Ctx F) (d : Nat) (p : Int)
+    (hd : (d : Int) + 1 ≤ x.i) (hi : x.i < x.cs.length) (hw : (d : Int) + p ≤ x.i + 1) :
+    Calc.vwma (x.shift d) p = Calc.vwma x p := by
+  unfold Calc.vwma
+  have e1 : x.i - (d : Int) - (p - 1) = (x.i - (p - 1)) - d := by omega
+  have e2 : x.i - (d : Int) + 1 = (x.i + 1) - d := by omega
+  simp only [Ctx.shift_name, Ctx.shift_i, e1, e2, Ctx.prevExists_shift x d _ hd hi,
+    readingPeriod_shift' x d p _ (by omega) hw, candlesSum_shift' x d p _ hd hi hw]
+  cases x.prevExists x.name with
+  | error e => rfl
+  | ok b =>
+    simp only [bind, Except.bind]
+    by_cases hg : (b || x.readingPeriod p "close") = true
+    · simp only [hg, if_true]
+      rw [pyRange_sub]
+      congr 1
+      apply mapM_shift
+      intro j hj
+      have hm := (Ana.mem_pyRange _ _ _).1 hj
+      rw [Ctx.num_shift x d "close" j (by omega), Ctx.num_shift x d "volume" j (by omega)]
+    · simp only [hg, Bool.false_eq_true, if_false]
+
+/-! ### the window extremes: HighestLowest, Donchian, Aroon -/
+
+/-- HighestLowest: the `period + 1` candles `[i - period, i]` -/
+theorem hl_shift (x : Ctx F) (d : Nat) (p : Int)
+    (hd0 : (d : Int) ≤ x.i) (hi : x.i < x.cs.length) (hw : (d : Int) + p ≤ x.i) :
+    Calc.hl (x.shift d) p = Calc.hl x p := by
+  unfold Calc.hl Mov.lowest Mov.highest
+  simp only [Ctx.shift_i, Ctx.shift_cs]
+  rw [extreme_drop x.cs "low" p _ d x.i hd0 hw hi, extreme_drop x.cs "high" p _ d x.i hd0 hw hi]
+
+/-- Donchian: the `period` candles `[i - (period - 1), i]`, and the previous own reading -/
+theorem donchian_shift (x : Ctx F) (d : Nat) (p : Int)
+    (hd : (d : Int) + 1 ≤ x.i) (hi : x.i < x.cs.length) (hw : (d : Int) + p ≤ x.i + 1) :
+    Calc.donchian (x.shift d) p = Calc.donchian x p := by
+  unfold Calc.donchian Mov.lowest Mov.highest
+  simp only [Ctx.shift_i, Ctx.shift_cs, Ctx.shift_name, Ctx.prevReading_shift x d _ hd hi,
+    readingPeriod_shift_at x d p _ (by omega) hw]
+  rw [extreme_drop x.cs "low" (p - 1) _ d x.i (by omega) (by omega) hi,
+    extreme_drop x.cs "high" (p - 1) _ d x.i (by omega) (by omega) hi]
+
+/-- Aroon: the `period + 1` candles `[i - period, i]` -/
+theorem aroon_shift (x : Ctx F) (d : Nat) (p : Int)
+    (hd0 : (d : Int) ≤ x.i) (hi : x.i < x.cs.length) (hw : (d : Int) + p ≤ x.i) :
+    Calc.aroon (x.shift d) p = Calc.aroon x p := by
+  unfold Calc.aroon Mov.highestbar Mov.lowestbar
+  simp only [Ctx.shift_i, Ctx.shift_cs, readingPeriod_shift' x d (p + 1) _ hd0 (by omega)]
+  rw [extremeBar_drop x.cs "high" (p + 1) _ d x.i hd0 (by omega) hi,
+    extremeBar_drop x.cs "low" (p + 1) _ d x.i hd0 (by omega) hi]
+
+/-! ### read-only readings over stored helper columns: Bollinger Bands, Keltner Channel,
+StandardDeviationThreshold -/
+
+theorem bbands_shift (x : Ctx F) (d : Nat) (a b : String) (hd0 : (d : Int) ≤ x.i) :
+    Calc.bbands (x.shift d) a b = Calc.bbands x a b := by
+  unfold Calc.bbands
+  simp only [Ctx.reading_shift_cur x d _ hd0]
+
+theorem kc_shift (x : Ctx F) (d : Nat) (m : Num F) (hd0 : (d : Int) ≤ x.i) :
+    Calc.kc (x.shift d) m = Calc.kc x m := by
+  unfold Calc.kc
+  simp only [Ctx.shift_name, Ctx.reading_shift_cur x d _ hd0]
+
+theorem stdevthres_shift (x : Ctx F) (d : Nat) (input : String) (m : Num F)
+    (hd : (d : Int) + 1 ≤ x.i) (hi : x.i < x.cs.length) :
+    Calc.stdevthres (x.shift d) input m = Calc.stdevthres x input m := by
+  unfold Calc.stdevthres
+  simp only [Ctx.shift_name, Ctx.reading_shift_cur x d _ (by omega : (d : Int) ≤ x.i),
+    Ctx.num_shift_cur x d _ (by omega : (d : Int) ≤ x.i), Ctx.prevNum_shift x d _ hd hi]
+
+/-! ### `Amorph` over the analysis functions -/
+
+/-- the look-back of an analysis function, from its arguments only: nothing for the per-candle
+predicates; `length` for the window functions (`_get_clean_readings` slices `[i - length, i]`, the
+crosses compare `length` consecutive pairs); `length - 1` for `highestbar` / `lowestbar` (which
+walk `i, …, i - length + 1`); ten candles plus one per further look-back position for the
+patterns. -/
+def anaWindow : Analysis → Nat
+  | .positive | .negative | .above .. | .below .. => 0
+  | .valueRange _ n | .rising _ n | .falling _ n | .meanRising _ n | .meanFalling _ n
+  | .highest _ n | .lowest _ n => n.toNat
+  | .highestbar _ n | .lowestbar _ n => (n - 1).toNat
+  | .cross _ _ n | .crossover _ _ n | .crossunder _ _ n => n.toNat
+  | .doji lb | .dojistar lb | .hammer lb | .invHammer lb => patWindow lb
+
+theorem runAnalysis_drop (a : Analysis) (cs : List (Candle F)) (d : Nat) (i : Int)
+    (hd : (d : Int) + anaWindow a ≤ i) (hi : i < cs.length) :
+    runAnalysis a (cs.drop d) (i - d) = runAnalysis a cs i := by
+  have hd0 : (d : Int) ≤ i := by omega
+  cases a with
+  | positive => simp only [runAnalysis, positive_drop cs d i hd0]
+  | negative => simp only [runAnalysis, negative_drop cs d i hd0]
+  | above a b => simp only [runAnalysis, Mov.above, aboveB_drop cs a b d i i hd0 (le_refl i) hi]
+  | below a b => simp only [runAnalysis, Mov.below, belowB_drop cs a b d i i hd0 (le_refl i) hi]
+  | valueRange ind n =>
+    simp only [anaWindow] at hd
+    simp only [runAnalysis, valueRange_drop cs ind n d i hd0 (by omega) hi]
+  | rising ind n =>
+    simp only [anaWindow] at hd
+    simp only [runAnalysis, Mov.rising, monotone_drop cs ind n _ d i hd0 (by omega) hi]
+  | falling ind n =>
+    simp only [anaWindow] at hd
+    simp only [runAnalysis, Mov.falling, monotone_drop cs ind n _ d i hd0 (by omega) hi]
+  | meanRising ind n =>
+    simp only [anaWindow] at hd
+    simp only [runAnalysis, Mov.meanRising, meanCmp_drop cs ind n _ d i hd0 (by omega) hi]
+  | meanFalling ind n =>
+    simp only [anaWindow] at hd
+    simp only [runAnalysis, Mov.meanFalling, meanCmp_drop cs ind n _ d i hd0 (by omega) hi]
+  | highest ind n =>
+    simp only [anaWindow] at hd
+    simp only [runAnalysis, Mov.highest, extreme_drop cs ind n _ d i hd0 (by omega) hi]
+  | lowest ind n =>
+    simp only [anaWindow] at hd
+    simp only [runAnalysis, Mov.lowest, extreme_drop cs ind n _ d i hd0 (by omega) hi]
+  | highestbar ind n =>
+    simp only [anaWindow] at hd
+    simp only [runAnalysis, Mov.highestbar, extremeBar_drop cs ind n _ d i hd0 (by omega) hi]
+  | lowestbar ind n =>
+    simp only [anaWindow] at hd
+    simp only [runAnalysis, Mov.lowestbar, extremeBar_drop cs ind n _ d i hd0 (by omega) hi]
+  | cross a b n =>
+    simp only [anaWindow] at hd
+    simp only [runAnalysis, cross_drop cs a b n d i hd0 (by omega) hi]
+  | crossover a b n =>
+    simp only [anaWindow] at hd
+    simp only [runAnalysis, crossover_drop cs a b n d i hd0 (by omega) hi]
+  | crossunder a b n =>
+    simp only [anaWindow] at hd
+    simp only [runAnalysis, crossunder_drop cs a b n d i hd0 (by omega) hi]
+  | doji lb => simp only [runAnalysis, Pat.doji, pattern_drop dojiAt_shift lb cs d i hd hi]
+  | dojistar lb => simp only [runAnalysis, Pat.dojistar, pattern_drop dojistarAt_shift lb cs d i hd hi]
+  | hammer lb => simp only [runAnalysis, Pat.hammer, pattern_drop hammerAt_shift lb cs d i hd hi]
+  | invHammer lb => simp only [runAnalysis, Pat.invHammer, pattern_drop invHammerAt_shift lb cs d i hd hi]
+
 end Foot
+
+/-! ## the window of a kind and the footprint theorem -/
+
+/-- **The look-back `W` of a read-only kind**, a function of its parameters only: the reading at
+index `i` touches only the candles `[i - W, i]`.
+
+* SMA `p`: `p` (the running update reads `index - period`), ROC `p`: `p`;
+* EMA / RMA / WMA / VWMA / ATR `p`: the seeding window `p - 1`;
+* Donchian `p`: `p - 1`; HighestLowest / Aroon `p`: `p`;
+* TR, OBV, Counter, StandardDeviationThreshold: one predecessor; HLA, Bollinger Bands, Keltner
+  Channel, `Managed`: the current candle only;
+* `Amorph`: `Foot.anaWindow`.
+
+Where the formula switches on "the previous own reading exists" the window is at least `1`, so that
+the switch itself is answered identically on the trimmed list.  `none`: the kinds whose
+`_calculate_reading` writes helper series (not read-only; `readKind` is not their reading). -/
+def window : Kind F → Option Nat
+  | .sma p _ => some (max p.toNat 1)
+  | .ema p _ _ => some (max (p - 1).toNat 1)
+  | .rma p _ => some (max (p - 1).toNat 1)
+  | .wma p _ => some (max (p - 1).toNat 1)
+  | .vwma p => some (max (p - 1).toNat 1)
+  | .roc p _ => some (max p.toNat 1)
+  | .atr p => some (max (p - 1).toNat 1)
+  | .tr => some 1
+  | .obv => some 1
+  | .counter _ _ => some 1
+  | .stdevthres _ _ _ => some 1
+  | .hla => some 0
+  | .bbands _ _ => some 0
+  | .kc _ _ _ => some 0
+  | .managed => some 0
+  | .hl p => some p.toNat
+  | .donchian p => some (max (p - 1).toNat 1)
+  | .aroon p => some p.toNat
+  | .amorph a => some (Foot.anaWindow a)
+  | _ => none
+
+/-- the window is defined exactly on the read-only kinds -/
+theorem window_isSome_iff (k : Kind F) : (window k).isSome = k.readOnly := by
+  cases k <;> rfl
+
+/-- **Bounded footprint** (drop-prefix invariance of a single reading), in `Ctx.shift` form -/
+theorem footprint_shift (k : Kind F) (W : Nat) (hw : window k = some W) (x : Ctx F) (d : Nat)
+    (hd : (d : Int) + W ≤ x.i) (hi : x.i < x.cs.length) :
+    readKind k (x.shift d) = readKind k x := by
+  cases k with
+  | sma p input =>
+    simp only [window, Option.some.injEq] at hw; subst hw
+    exact Foot.sma_shift x d p input (by omega) hi (by omega)
+  | ema p input sm =>
+    simp only [window, Option.some.injEq] at hw; subst hw
+    exact Foot.ema_shift x d p input sm (by omega) hi (by omega)
+  | rma p input =>
+    simp only [window, Option.some.injEq] at hw; subst hw
+    exact Foot.rma_shift x d p input (by omega) hi (by omega)
+  | wma p input =>
+    simp only [window, Option.some.injEq] at hw; subst hw
+    exact Foot.wma_shift x d p input (by omega) hi (by omega)
+  | vwma p =>
+    simp only [window, Option.some.injEq] at hw; subst hw
+    exact Foot.vwma_shift x d p (by omega) hi (by omega)
+  | roc p input =>
+    simp only [window, Option.some.injEq] at hw; subst hw
+    exact Foot.roc_shift x d p input (by omega) hi (by omega)
+  | atr p =>
+    simp only [window, Option.some.injEq] at hw; subst hw
+    exact Foot.atr_shift x d p _ (by omega) hi (by omega)
+  | tr =>
+    simp only [window, Option.some.injEq] at hw; subst hw
+    exact tr_shift x d (by omega) hi
+  | obv =>
+    simp only [window, Option.some.injEq] at hw; subst hw
+    exact obv_shift x d (by omega) hi
+  | counter input cv =>
+    simp only [window, Option.some.injEq] at hw; subst hw
+    exact counter_shift x d input cv (by omega) hi
+  | stdevthres p input m =>
+    simp only [window, Option.some.injEq] at hw; subst hw
+    exact Foot.stdevthres_shift x d input m (by omega) hi
+  | hla =>
+    simp only [window, Option.some.injEq] at hw; subst hw
+    exact hla_shift x d (by omega)
+  | bbands p input =>
+    simp only [window, Option.some.injEq] at hw; subst hw
+    exact Foot.bbands_shift x d _ _ (by omega)
+  | kc p input m =>
+    simp only [window, Option.some.injEq] at hw; subst hw
+    exact Foot.kc_shift x d m (by omega)
+  | managed => rfl
+  | hl p =>
+    simp only [window, Option.some.injEq] at hw; subst hw
+    exact Foot.hl_shift x d p (by omega) hi (by omega)
+  | donchian p =>
+    simp only [window, Option.some.injEq] at hw; subst hw
+    exact Foot.donchian_shift x d p (by omega) hi (by omega)
+  | aroon p =>
+    simp only [window, Option.some.injEq] at hw; subst hw
+    exact Foot.aroon_shift x d p (by omega) hi (by omega)
+  | amorph a =>
+    simp only [window, Option.some.injEq] at hw; subst hw
+    exact Foot.runAnalysis_drop a x.cs d x.i hd hi
+  | hma _ _ => cases hw
+  | stdev _ _ => cases hw
+  | supertrend _ _ _ => cases hw
+  | rsi _ _ => cases hw
+  | macd _ _ _ _ => cases hw
+  | stoch _ _ _ _ => cases hw
+  | tsi _ _ _ => cases hw
+  | adx _ _ => cases hw
+  | vwap _ => cases hw
+
+/-- **Bounded footprint.**  For every read-only kind `k` with look-back `W = window k`, every
+candle list (raw or carrying any stored readings), every index `i` inside it and every `d` with
+`d + W ≤ i`: the reading computed at index `i` equals the reading computed at index `i - d` of the
+list whose first `d` candles were dropped.  No side condition on parameters or state. -/
+theorem footprint (k : Kind F) (W : Nat) (hw : window k = some W) (cs : List (Candle F)) (i : Int)
+    (nm : String) (d : Nat) (hd : (d : Int) + W ≤ i) (hi : i < cs.length) :
+    readKind k { cs := cs, i := i, name := nm } = readKind k { cs := cs.drop d, i := i - d, name := nm } :=
+  (footprint_shift k W hw { cs := cs, i := i, name := nm } d hd hi).symm
+
+/-- **C07 form**: the reading at the newest index of a list of length `n > W` equals the reading
+at index `W` of the list of its last `W + 1` candles – a function of `W + 1` candles, whatever the
+history length. -/
+theorem footprint_newest (k : Kind F) (W : Nat) (hw : window k = some W) (cs : List (Candle F))
+    (nm : String) (hn : W < cs.length) :
+    readKind k { cs := cs, i := (cs.length : Int) - 1, name := nm }
+      = readKind k { cs := cs.drop (cs.length - 1 - W), i := (W : Int), name := nm } := by
+  have h := footprint k W hw cs ((cs.length : Int) - 1) nm (cs.length - 1 - W) (by omega) (by omega)
+  have e : (cs.length : Int) - 1 - ((cs.length - 1 - W : Nat) : Int) = (W : Int) := by omega
+  rw [e] at h
+  exact h
+
+/-- the list the newest reading is computed from has exactly `W + 1` candles -/
+theorem footprint_newest_length {α : Type} (cs : List α) (W : Nat) (hn : W < cs.length) :
+    (cs.drop (cs.length - 1 - W)).length = W + 1 := by
+  rw [List.length_drop]; omega
+
+/-- the same without the length condition: a list shorter than the window is used entirely -/
+theorem footprint_newest' (k : Kind F) (W : Nat) (hw : window k = some W) (cs : List (Candle F))
+    (nm : String) (hne : cs ≠ []) :
+    readKind k { cs := cs, i := (cs.length : Int) - 1, name := nm }
+      = readKind k { cs := cs.drop (cs.length - 1 - W),
+                     i := (cs.length : Int) - 1 - ((cs.length - 1 - W : Nat) : Int), name := nm } := by
+  have hl : 0 < cs.length := List.length_pos_iff.mpr hne
+  by_cases hn : W < cs.length
+  · exact footprint k W hw cs ((cs.length : Int) - 1) nm (cs.length - 1 - W) (by omega) (by omega)
+  · have : cs.length - 1 - W = 0 := by omega
+    rw [this]
+    simp
+
+/-- **C07 form, as a function of the window**: there is ONE function of `W + 1` candles that gives
+the newest reading of every longer list -/
+theorem newest_reading_is_window_function (k : Kind F) (W : Nat) (hw : window k = some W) (nm : String) :
+    ∃ g : List (Candle F) → PyM (Val F), ∀ cs : List (Candle F), W < cs.length →
+      (cs.drop (cs.length - 1 - W)).length = W + 1 ∧
+      readKind k { cs := cs, i := (cs.length : Int) - 1, name := nm } = g (cs.drop (cs.length - 1 - W)) :=
+  ⟨fun w => readKind k { cs := w, i := (W : Int), name := nm }, fun cs hn =>
+    ⟨footprint_newest_length cs W hn, footprint_newest k W hw cs nm hn⟩⟩
+
+/-- **Through the engine's dispatch** (`calcKind`, any helper services): the same reading, and the
+returned candle list is the trimmed one -/
+theorem footprint_calcKind (ops ops' : Ops F) (ind : Ind F) (W : Nat) (hw : window ind.kind = some W)
+    (cs : List (Candle F)) (i : Int) (d : Nat) (hd : (d : Int) + W ≤ i) (hi : i < cs.length) :
+    calcKind ops' ind { cs := cs.drop d, i := i - d, name := ind.name }
+      = (calcKind ops ind { cs := cs, i := i, name := ind.name }).map (fun r => (r.1, r.2.drop d)) := by
+  have hro : ind.kind.readOnly = true := by
+    rw [← window_isSome_iff, hw]; rfl
+  rw [calcKind_readOnly _ _ _ hro, calcKind_readOnly _ _ _ hro]
+  rw [footprint ind.kind W hw cs i ind.name d hd hi]
+  cases readKind ind.kind { cs := cs.drop d, i := i - d, name := ind.name } <;> rfl
+
+/-! ### the tighter, state-dependent window of the seeded recurrences -/
+
+/-- once the recurrence is seeded (the previous own reading is not `None` – maintained along the
+engine's loop: `ema_seeded_nonNone`, `rma_seeded_nonNone`, `prevExists_after_step`,
+`seeded_at_end` in `HexProofs/Manager2/ShiftInst.lean`), EMA and RMA look back ONE candle -/
+def windowSeeded : Kind F → Option Nat
+  | .ema _ _ _ => some 1
+  | .rma _ _ => some 1
+  | k => window k
+
+theorem footprint_seeded (k : Kind F) (W : Nat) (hw : windowSeeded k = some W) (cs : List (Candle F))
+    (i : Int) (nm : String) (d : Nat) (hd : (d : Int) + W ≤ i) (hi : i < cs.length)
+    (hs : Seeded k { cs := cs, i := i, name := nm }) :
+    readKind k { cs := cs, i := i, name := nm } = readKind k { cs := cs.drop d, i := i - d, name := nm } := by
+  cases k with
+  | ema p input sm =>
+    simp only [windowSeeded, Option.some.injEq] at hw; subst hw
+    exact (ema_shift_seeded { cs := cs, i := i, name := nm } d p input sm (by simp only; omega) hi hs).symm
+  | rma p input =>
+    simp only [windowSeeded, Option.some.injEq] at hw; subst hw
+    exact (rma_shift_seeded { cs := cs, i := i, name := nm } d p input (by simp only; omega) hi hs).symm
+  | _ => refine footprint _ W ?_ cs i nm d hd hi; exact hw
+
+/-! ### axioms -/
+
+#print axioms footprint
+#print axioms footprint_newest
+#print axioms newest_reading_is_window_function
+#print axioms footprint_calcKind
+#print axioms footprint_seeded
+
+/-! ### non-vacuity: `SMA_3` over `close` on six finished candles (carrier `Int`) -/
+
+namespace FootDemo
+
+/-- six finished candles: closes 2, 4, 3, 8, 7, 6 with the `SMA_3` column the engine stores on them
+(`None`, `None`, 3, 5, 6, and – to be recomputed – 7) -/
+def demo6 : List (Candle Int) :=
+  [ { o := .int 1, h := .int 3, l := .int 1, c := .int 2, v := .int 10, ts := some 60, inds := [("SMA_3", .none)] },
+    { o := .int 2, h := .int 5, l := .int 2, c := .int 4, v := .int 20, ts := some 120, inds := [("SMA_3", .none)] },
+    { o := .int 4, h := .int 4, l := .int 0, c := .int 3, v := .int 5, ts := some 180, inds := [("SMA_3", .num (.flt 3))] },
+    { o := .int 1, h := .int 7, l := .int 1, c := .int 8, v := .int 8, ts := some 240, inds := [("SMA_3", .num (.flt 5))] },
+    { o := .int 6, h := .int 9, l := .int 5, c := .int 7, v := .int 12, ts := some 300, inds := [("SMA_3", .num (.flt 6))] },
+    { o := .int 7, h := .int 8, l := .int 3, c := .int 6, v := .int 9, ts := some 360 } ]
+
+/-- the float value of a reading (`none`: the reading raised, is `None`, or is not a float) -/
+def fltOf (r : PyM (Val Int)) : Option Int :=
+  match r with
+  | .ok (Val.s (Scalar.num (Num.flt x))) => some x
+  | _ => none
+
+/-- the `SMA_3` column of a candle list -/
+def column (cs : List (Candle Int)) : List (Option Int) :=
+  cs.map fun c => fltOf (match (dlookup "SMA_3" c.inds : Option (Val Int)) with | some v => .ok v | none => .error .keyError)
+
+/-- the stored column IS what the engine computes from the raw candles -/
+example : (leafCalc (mkTop (.sma 3 "close") "SMA_3" 4) (demo6.map Candle.reset)).toOption.map column
+    = some [none, none, some 3, some 5, some 6, some 7] := by decide +kernel
+example : column demo6 = [none, none, some 3, some 5, some 6, none] := by decide +kernel
+
+example : window (F := Int) (.sma 3 "close") = some 3 := rfl
+
+/-- `footprint` instantiated: the reading at index 5 of the six candles is the reading at index 3
+of the last four (`d = 2`, `W = 3`); the side conditions are decided -/
+example : readKind (.sma 3 "close") { cs := demo6, i := 5, name := "SMA_3" }
+    = readKind (.sma 3 "close") { cs := demo6.drop 2, i := 5 - (2 : Nat), name := "SMA_3" } :=
+  footprint (.sma 3 "close") 3 rfl demo6 5 "SMA_3" 2 (by decide) (by decide)
+
+/-- the C07 form on the demo: the newest reading from the last `W + 1 = 4` candles -/
+example : readKind (.sma 3 "close") { cs := demo6, i := (demo6.length : Int) - 1, name := "SMA_3" }
+    = readKind (.sma 3 "close") { cs := demo6.drop (demo6.length - 1 - 3), i := ((3 : Nat) : Int), name := "SMA_3" } :=
+  footprint_newest (.sma 3 "close") 3 rfl demo6 "SMA_3" (by decide)
+
+/-- … and both sides are a genuine number (7 = 6 - (3 - 6) / 3), not an error -/
+example : fltOf (readKind (.sma 3 "close") { cs := demo6, i := 5, name := "SMA_3" }) = some 7 := by
+  decide +kernel
+example : fltOf (readKind (.sma 3 "close") { cs := demo6.drop 2, i := 3, name := "SMA_3" }) = some 7 := by
+  decide +kernel
+
+/-- the window of SMA is TIGHT: with one candle less retained (`d = 3`, `d + W = 6 > 5`) the running
+update reads `index - period = -1`, which Python wraps to the newest candle, and the reading differs -/
+example : fltOf (readKind (.sma 3 "close") { cs := demo6.drop 3, i := 2, name := "SMA_3" }) = some 6 := by
+  decide +kernel
+
+end FootDemo
+
 end Hex
